@@ -443,11 +443,33 @@ impl SourceFile {
     ///
     /// Returns None if the offset is out of bounds.
     pub fn get_line_column(&self, offset: usize) -> Option<LineColumn> {
-        let (_, zero_indexed_line, zero_indexed_column) = self.ariadne().get_byte_line(offset)?;
-        Some(LineColumn {
-            line: zero_indexed_line + 1,
-            column: zero_indexed_column + 1,
-        })
+        let bytes = self.source_text.as_bytes();
+        if offset > bytes.len() {
+            return None;
+        }
+        // Lines are separated by GraphQL LineTerminators: "\n", "\r\n", or "\r".
+        // https://spec.graphql.org/October2021/#LineTerminator
+        let mut line = 1;
+        let mut line_start = 0;
+        let mut i = 0;
+        while i < offset {
+            let byte = bytes[i];
+            i += 1;
+            if byte == b'\n' || (byte == b'\r' && !(i < bytes.len() && bytes[i] == b'\n')) {
+                line += 1;
+                line_start = i;
+            }
+        }
+        // Columns count Unicode scalar values: every byte that is not a UTF-8 continuation byte
+        let mut column = 1;
+        let mut j = line_start;
+        while j < offset {
+            if bytes[j] & 0xC0 != 0x80 {
+                column += 1;
+            }
+            j += 1;
+        }
+        Some(LineColumn { line, column })
     }
 
     /// Get starting and ending [`LineColumn`]s for the given `range` 0-indexed UTF-8 byte offsets.
